@@ -36,13 +36,24 @@ def main():
     pkg = m.group(1) if m else None
     if tuner:
         pkg = tuner.group(1)
+    pl = re.search(r"Place in:\s*(\S+?)/?\s", head)  # an explicit placement line wins over a path mentioned elsewhere
+    if pl:
+        d = pl.group(1).strip("/")
+        if d.startswith("tools/tuner/"):
+            pkg, tuner = d.split("/")[-1], True
+        else:
+            pkg, tuner = d, None
     r = re.search(r"-run\s+'?\"?([A-Za-z0-9_|]+)", head)
     runpat = r.group(1) if r else "Demo"
     wt = f"/tmp/sv/{sid}"
     shutil.rmtree(wt, ignore_errors=True)
     os.makedirs("/tmp/sv", exist_ok=True)
-    sh(["git", "-C", "/repo", "worktree", "prune"], "/")
-    rc, o = sh(["git", "-C", "/repo", "worktree", "add", "-q", "--detach", wt, "HEAD"], "/")
+    import fcntl
+    os.makedirs("/tmp/seedrun", exist_ok=True)
+    with open("/tmp/seedrun/.lock", "w") as lk:  # shared with seedrun.py: prune + add are not safe concurrently
+        fcntl.flock(lk, fcntl.LOCK_EX)
+        sh(["git", "-C", "/repo", "worktree", "prune"], "/")
+        rc, o = sh(["git", "-C", "/repo", "worktree", "add", "-q", "--detach", wt, "HEAD"], "/")
     res = {"id": sid, "property": prop, "demo_pkg": pkg, "demo_run": runpat}
     try:
         rc, o = sh(["git", "apply", "--whitespace=nowarn", os.path.join(dst, "patch.diff")], wt)
@@ -97,7 +108,9 @@ def main():
         else:
             res["demo_note"] = "demonstration is not a package test; not run automatically"
     finally:
-        sh(["git", "-C", "/repo", "worktree", "remove", "--force", wt], "/")
+        with open("/tmp/seedrun/.lock", "w") as lk:
+            fcntl.flock(lk, fcntl.LOCK_EX)
+            sh(["git", "-C", "/repo", "worktree", "remove", "--force", wt], "/")
         shutil.rmtree(wt, ignore_errors=True)
         res["verified"] = bool(res.get("applies") and res.get("builds") and res.get("suite_passes_with_patch")
                                and res.get("demo_fails_with_patch") and res.get("demo_passes_without_patch"))
